@@ -293,6 +293,34 @@ class Capture:
         return {"herds": [herd_json(h) for h in self.herds], "events": self.events}
 
 
+def country_data_of(iso3, opt):
+    from src.scenarios.run_model_no_trade import ScenarioRunnerNoTrade
+    country_data = None
+    for _, row in table().iterrows():   # exactly as run_model_no_trade does (python floats, not np.float64 cells)
+        if row["iso3"] == iso3:
+            country_data = row
+            break
+    if country_data is None:
+        raise KeyError(iso3)
+    r = ScenarioRunnerNoTrade()
+    country_data = r.apply_custom_parameters(country_data, opt)
+    r.verify_country_data(country_data)
+    return r, country_data
+
+
+def plain_run(job):
+    opt = copy.deepcopy(job["option"])
+    r, country_data = country_data_of(job["iso3"], opt)
+    try:
+        r.run_optimizer_for_country(country_data, opt, False, False, False,
+                                    title="c05p_%s_%d" % (job["iso3"], os.getpid()))
+    finally:
+        try:
+            os.remove("model.json")
+        except OSError:
+            pass
+
+
 def one_run(job):
     """job = {"iso3", "option"} -> {"capture" | "err", "audit": [...]}"""
     import c05_audit
@@ -300,17 +328,15 @@ def one_run(job):
     opt = copy.deepcopy(job["option"])
     out = {"iso3": job["iso3"], "option": job["option"]}
     try:
-        t = table()
-        country_data = None
-        for _, row in t.iterrows():   # exactly as run_model_no_trade does (python floats, not np.float64 cells)
-            if row["iso3"] == job["iso3"]:
-                country_data = row
-                break
-        if country_data is None:
-            raise KeyError(job["iso3"])
-        r = ScenarioRunnerNoTrade()
-        country_data = r.apply_custom_parameters(country_data, opt)
-        r.verify_country_data(country_data)
+        r, country_data = country_data_of(job["iso3"], opt)
+        for pj in job.get("prelude", []):
+            # earlier runs executed in THIS process, uncaptured: anything they leave behind (module-level state)
+            # must not influence the run under audit
+            try:
+                with quiet():
+                    plain_run(pj)
+            except BaseException:
+                pass
         with Capture() as cap:
             try:
                 with quiet():
@@ -328,23 +354,39 @@ def one_run(job):
             os.remove("model.json")
         except OSError:
             pass
-    if job.get("audit_only"):
-        out.pop("capture", None)
     return out
 
 
 def run_runs(jobs, nproc):
+    """the parent process never simulates anything itself: every job runs in a forked worker.
+    Jobs with a "prelude" (earlier runs executed first in the same worker process) are additionally executed ALONE in
+    a fresh process (maxtasksperchild=1); the two captures must agree (c05_audit.compare_with_solo)."""
     redirect_results()
     # warm imports before forking
     import src.scenarios.run_model_no_trade  # noqa: F401
-    import c05_audit  # noqa: F401
+    import c05_audit
     table()
-    if nproc <= 1 or len(jobs) <= 1:
-        return [one_run(j) for j in jobs]
     import multiprocessing as mp
     ctx = mp.get_context("fork")
-    with ctx.Pool(min(nproc, len(jobs))) as pool:
-        return pool.map(one_run, jobs, chunksize=1)
+    solo_idx = [i for i, j in enumerate(jobs) if j.get("prelude")]
+    solo_jobs = [{"iso3": jobs[i]["iso3"], "option": jobs[i]["option"]} for i in solo_idx]
+    with ctx.Pool(max(1, min(nproc, len(jobs)))) as pool:
+        res = pool.map(one_run, jobs, chunksize=1)
+    if solo_jobs:
+        with ctx.Pool(max(1, min(nproc, len(solo_jobs))), maxtasksperchild=1) as pool:
+            solos = pool.map(one_run, solo_jobs, chunksize=1)
+        for i, solo in zip(solo_idx, solos):
+            r = res[i]
+            if "capture" in r and "capture" in solo:
+                extra = c05_audit.compare_with_solo(r["capture"], solo["capture"])
+                r["audit"]["failures"] = extra + r["audit"]["failures"]
+                r["audit"]["stats"]["compared_with_solo"] = True
+            else:
+                r.setdefault("audit", {"failures": [], "stats": {}})["stats"]["compared_with_solo"] = False
+    for j, r in zip(jobs, res):
+        if j.get("audit_only"):
+            r.pop("capture", None)
+    return res
 
 
 def run(payload):
